@@ -288,12 +288,22 @@ def machine(tier, sink):
         i, j = base['panel']['perm_seed'] % len(ids), (base['panel']['perm_seed'] // 7) % (len(ids) - 1)
         j = j if j < i else j + 1
         base['panel']['copy'] = [[i, j]]
-        if base['panel']['perm_seed'] % 3 != 2:
+        if base['panel']['perm_seed'] % 4 < 2:
           rows = [] if base['elig'] is None else [r for r in base['elig']['rows'] if r[0] not in (ids[i], ids[j])]
           rows += [[ids[i], 1, 0, 1], [ids[j], 1, 0, 1]]
           base['elig'] = dict(base['elig'] or {'as_index': False, 'style': 'twins', 'col_order': None, 'row_labels': None}, rows=rows)
-        # (otherwise the twins keep their rows: a candidate pairing one against the other is perfectly correlated and the
-        # exhaustive search raises ValueError part-way - a later retrieval must still show the last completed search)
+        else:
+          # the twins are the two smallest geos of an unrestricted panel: a candidate pairing one against the other is
+          # perfectly correlated and the exhaustive search raises ValueError part-way, after other designs were scored -
+          # a later retrieval must still show the last search that completed
+          n = len(ids)
+          base['panel']['copy'] = [[0, 1]]
+          base['panel']['level'] = [1, 1] + [[8, 12, 20, 32][k % 4] for k in range(n - 2)]
+          base['panel']['early'], base['panel']['sign'] = [1] * n, [1] * n
+          base['panel']['near_copy'], base['panel']['flat'], base['panel']['missing'] = [], [], []
+          base['elig'] = None
+          for k in ('n_geos_max', 'budget_q', 'share_q', 'treatment_geos_range', 'control_geos_range', 'geo_ratio_tolerance', 'volume_ratio_tolerance'):
+            base['params'][k] = None
         base['params']['n_designs'] = max(5, base['params']['n_designs'])
       if len(base['panel']['ids']) >= 4 and base['panel']['perm_seed'] % 3 == 0:
         base['params']['n_geos_max'] = 2 + base['panel']['perm_seed'] % 2      # a binding cap on the geos admitted
@@ -332,6 +342,13 @@ def machine(tier, sink):
     @precondition(lambda self: self.r is not None and self.r.last_search is not None)
     @rule()
     def results(self):
+      self._do(['search_results'])
+
+    @precondition(lambda self: self.r is not None and self.r.last_search is not None)
+    @rule(kind=st.sampled_from(['exhaustive_search', 'greedy_search']))
+    def search_again_then_retrieve(self, kind):
+      # (if this search raises, the retrieval must still show the last search that completed)
+      self._do([kind])
       self._do(['search_results'])
 
     @precondition(lambda self: self.r is not None and self.r.last_search is not None)
